@@ -126,7 +126,13 @@ def main(argv):
             ctx.model_ok = ok_d
             # a broken obligation escalates the search to the thorough generators
             ctx.search_tier = "thorough" if (broken or tier == "thorough") else "quick"
-            mod.run(ctx, out)
+            try:
+                mod.run(ctx, out)
+            except Exception as ex:
+                if not broken:
+                    raise
+                import traceback
+                out.notes.append("correspondence aborted after a broken obligation: " + traceback.format_exc()[-600:])
         else:
             out.notes.append("correspondence not run: " + "; ".join(broken)[:300])
 
